@@ -8,6 +8,8 @@ require (
 	github.com/anyproto/lexid v0.0.6
 	github.com/cespare/xxhash v1.1.0
 	github.com/golang/snappy v1.0.0
+	github.com/ipfs/go-cid v0.6.2
+	github.com/multiformats/go-multibase v0.3.0
 	go.uber.org/zap v1.28.0
 	google.golang.org/protobuf v1.36.11
 	storj.io/drpc v1.0.0
@@ -35,7 +37,6 @@ require (
 	github.com/golang/freetype v0.0.0-20170609003504-e2365dfdc4a0 // indirect
 	github.com/google/uuid v1.6.0 // indirect
 	github.com/huandu/skiplist v1.2.1 // indirect
-	github.com/ipfs/go-cid v0.6.2 // indirect
 	github.com/jbenet/go-temp-err-catcher v0.1.0 // indirect
 	github.com/klauspost/cpuid/v2 v2.4.0 // indirect
 	github.com/libp2p/go-buffer-pool v0.1.0 // indirect
@@ -44,7 +45,6 @@ require (
 	github.com/multiformats/go-base32 v0.1.0 // indirect
 	github.com/multiformats/go-base36 v0.2.0 // indirect
 	github.com/multiformats/go-multiaddr v0.16.1 // indirect
-	github.com/multiformats/go-multibase v0.3.0 // indirect
 	github.com/multiformats/go-multicodec v0.10.0 // indirect
 	github.com/multiformats/go-multihash v0.2.3 // indirect
 	github.com/multiformats/go-multistream v0.6.1 // indirect
